@@ -57,6 +57,8 @@ class C11(Check):
 
     def __init__(self):
         self._gen = None
+        from lib.framework import load_known
+        self.finding_status = {f['id']: f.get('status') for f in load_known('C11')}
 
     # -- translator --------------------------------------------------------------------------------
     def scripts(self, repo):
@@ -131,41 +133,13 @@ class C11(Check):
             }
 
     # -- known findings: region predicates ------------------------------------------------------------
-    def region(self, case, obs):  # noqa: C901
-        """id of the listed known finding whose region contains this failing case, else None"""
-        m = case['mutator']
-        exc = type(obs['exc']).__name__ if obs['exc'] is not None else ''
-        a0 = case['args'][0] if case['args'] else None
-        if any('bad' in u for u in obs['served']) and exc == 'SyntaxErr':
-            # the fetched sheet of an @import has a syntax error: surfaces after the commit
-            if m in ('CSSStyleSheet.insertRule', 'CSSStyleSheet.add', 'CSSImportRule.cssText', 'CSSImportRule.href',
-                     '_Namespaces.__setitem__'):
-                return 'C11-import-fetch'
-        if isinstance(a0, dict) and 'rulelist' in a0 and m.split('.')[1] in ('insertRule', 'add'):
-            return 'C11-rulelist-partial'
-        if m == 'CSSNamespaceRule.cssText' and exc == 'NoModificationAllowedErr' and not obs['readonly']:
-            return 'C11-nsrule-prefix'
-        if m == 'MarginRule.cssText' and exc in ('SyntaxErr', 'InvalidModificationErr'):
-            return 'C11-marginrule-emptied'
-        if obs['target_cls'] in ('PropertyValue', 'ColorValue', 'DimensionValue', 'Property', 'MediaList') and \
-                m.split('.')[1] in ('cssText', 'value', 'propertyValue', 'mediaText') and exc == 'SyntaxErr':
-            # only the wellformed flag (and what is derived from it) may differ
-            if all(self.only_wellformed(d) for d in obs['diff']):
-                return 'C11-wellformed-flag'
-            if m == 'MediaList.mediaText' or obs['target_cls'] == 'MediaList':
-                return 'C11-wellformed-flag'
-        if m == 'CSSStyleSheet._setCssTextWithEncodingOverride':
-            return 'C11-encoding-override'
+    def region(self, case, obs):
+        """id of the listed known finding (status "known") whose region contains this failing case, else None.
+        All findings of the build round are fixed in the current tree (known/C11.json, status "fixed"), so no region
+        is exempted any more: every changed-after-rejection is reported."""
         return None
 
-    @staticmethod
-    def only_wellformed(d):
-        path, a, b = d
-        return isinstance(a, bool) and isinstance(b, bool)
-
-    RO_MISSING = {'CSSImportRule.href', 'CSSImportRule.name', 'CSSMediaRule.name', 'MarginRule.margin',
-                  'CSSVariablesDeclaration.removeVariable', 'CSSVariablesDeclaration.__delitem__',
-                  'MediaList.__delitem__', 'CSSStyleSheet.encoding', 'CSSPageRule.__setitem__'}
+    RO_MISSING = set()
 
     # -- the run ---------------------------------------------------------------------------------------
     def run(self, ctx):
@@ -375,9 +349,12 @@ class C11(Check):
                              nontrivial=True, kind='readonly:%s' % ('rejected' if ok_reject else outcome))
                     if before != after:
                         wit = {'readonly_object': spec, 'mutator': name, 'args': args}
-                        known = 'C11-readonly-unguarded' if name in self.RO_MISSING or \
-                            spec['new'] in ('Value', 'ColorValue', 'DimensionValue', 'URIValue', 'CSSFunction',
-                                            'CSSCalc', 'CSSVariable', 'MSValue') else None
+                        # region of known finding C11-value-readonly: a Value (sub)class instance built with
+                        # readonly=True whose constructor did not keep the flag
+                        known = 'C11-value-readonly' if (isinstance(obj, cu.css.Value) and
+                                                         not getattr(obj, '_readonly', False) and
+                                                         self.finding_status.get('C11-value-readonly') == 'known') \
+                            else None
                         ctx.violate('an object created read-only rejects every mutator and stays unchanged', wit,
                                     {'outcome': outcome, 'exception': type(exc).__name__ if exc else None,
                                      'first_differences': [(p, repr(x)[:120], repr(y)[:120]) for p, x, y in
